@@ -856,9 +856,10 @@ func (l *listUsersQuery) expandExclusion(
 			}
 
 			if subtractedUser.relationshipStatus == NoRelationship {
+				// the user is explicitly not in the subtracted set: it keeps the status it has in the base
 				concurrency.TrySendThroughChannel(ctx, foundUser{
 					user:               tuple.StringToUserProto(userKey),
-					relationshipStatus: HasRelationship,
+					relationshipStatus: fu.relationshipStatus,
 				}, foundUsersChan)
 			}
 
